@@ -763,6 +763,7 @@ def option_sets(scratch):
         "watch-cpu": ["-W", "cpu"],
         "signal-trigger": ["--signal", "SIGUSR1@finish"],
         "hide": ["-H", "f1"],
+        "logfile": ["--logfile", os.path.join(scratch, "c01_uftrace.log")],      # libmcount logs to an inherited descriptor (UFTRACE_LOGFD)
         "fparg": ["-A", "^f[0-9]+$@fparg1/64", "-R", "^f[0-9]+$@retval/f64"],
         "time-auto-args": ["-t", "1us", "-a"],
         "backtrace": ["-T", "f1@color=red,backtrace"],
@@ -897,7 +898,7 @@ def e2e_plan(ctx):
     """list of (program params, [(mode, opt, optset, live)])"""
     rng = ctx.rng
     plan = []
-    nprog = ctx.n(8, 36)
+    nprog = ctx.n(7, 36)
     per = ctx.n(10, 24)
     osets = [o for o in option_sets(ctx.scratch) if not o.startswith("args-") and not o.startswith("max-stack-")
              and o not in ("finish", "script-fp", "recover-rec")]
@@ -955,9 +956,11 @@ def e2e(ctx, objdir):
     for si, name in enumerate(sorted(SC.SCENARIOS)):
         key = "s_" + name
         sources[key] = SC.source(name)
-        for _ in range(ctx.n(1, 4)):
+        for rep in range(ctx.n(1, 4)):
             mode = ctx.rng.choice(["pg", "fentry", "cyg", "patchable", "cyg" if name.startswith("ovf") else "fentry-nop"])
             oset = ctx.rng.choice(SC.PLAN[name])
+            if name == "fds" and rep == 0 and oset == "logfile":
+                oset = "plain"               # at least one run in which libmcount logs to the program's own stderr
             if mode == "cyg" and oset in ("args", "auto-args"):
                 oset = "plain"
             opt = ctx.rng.choice(["-O1", "-O2"])
